@@ -70,10 +70,14 @@ type Sim struct {
 
 	Steps    int
 	MaxSteps int
+	// BudgetExhausted is set when Run stopped because of MaxSteps (the run is inconclusive).
+	BudgetExhausted bool
 	Log      []string
 	KeepLog  bool
 	h        uint64
 	Stats    map[string]int
+	// Panics of actor goroutines (application code calling into hc) outside teardown.
+	Panics []string
 
 	// Extra returns harness-defined actions (faults, time advance).
 	Extra func() []Action
@@ -196,8 +200,14 @@ func (s *Sim) Go(name string, f func()) {
 		s.actors[id] = name
 		s.mu.Unlock()
 		defer func() {
+			r := recover()
 			s.mu.Lock()
 			delete(s.actors, id)
+			if r != nil && !s.teardown.Load() {
+				buf := make([]byte, 4096)
+				n := runtime.Stack(buf, false)
+				s.Panics = append(s.Panics, fmt.Sprintf("actor %s panicked: %v\n%s", name, r, buf[:n]))
+			}
 			s.mu.Unlock()
 		}()
 		f()
@@ -275,10 +285,15 @@ func (s *Sim) ParkedSnapshot() []Parked {
 func (s *Sim) next() int {
 	s.mu.Lock()
 	defer s.mu.Unlock()
-	if s.pos < len(s.sched) {
-		v := s.sched[s.pos]
+	// the vector is used cyclically: a short vector is a periodic schedule, the empty
+	// vector the canonical polite one
+	if len(s.sched) > 0 {
+		v := int(s.sched[s.pos%len(s.sched)])
+		if lap := s.pos / len(s.sched); lap > 0 && v != 0 {
+			v += lap * 7 // later laps differ, so a short vector is not a pathological loop
+		}
 		s.pos++
-		return int(v)
+		return v
 	}
 	return 0
 }
@@ -337,6 +352,7 @@ func (s *Sim) Run(stop func() bool) error {
 		}
 		if s.Steps >= s.MaxSteps {
 			s.Logf("step budget exhausted")
+			s.BudgetExhausted = true
 			return nil
 		}
 		acts := s.enabled()
